@@ -623,6 +623,10 @@ type evInterval struct {
 	S, E     time.Time
 	instant  bool
 	rec      *recRule
+	// wall != nil: the recurrence runs on the wall clock of this zone (a
+	// DTSTART with TZID): instance k starts k steps of whole days later at
+	// the same local time, whatever the UTC offset is by then.
+	wall *time.Location
 }
 
 func propsNamed(c Comp, name string) []Prop {
@@ -734,10 +738,30 @@ func eventInterval(c Comp, z *time.Location) (evInterval, string) {
 		if !ok {
 			return iv, "recurrence outside the bounded family (FREQ=DAILY|WEEKLY;COUNT[;INTERVAL])"
 		}
-		if st.spelling != "utc" || iv.floating {
-			return iv, "recurrence outside the bounded family (DTSTART not in UTC)"
+		switch {
+		case iv.floating:
+			return iv, "recurrence outside the bounded family (floating or DATE DTSTART)"
+		case st.spelling == "utc":
+			iv.rec = rr
+		case st.spelling == "tzid":
+			iv.rec, iv.wall = rr, S.Location()
+			// Every instance must start at a local time that exists exactly
+			// once and lies at least 3 h from any UTC-offset transition, and
+			// must not reach across one (nominal vs. exact duration).
+			d := iv.E.Sub(iv.S)
+			for _, in := range iv.instances() {
+				_, off := in[0].Zone()
+				_, o1 := in[0].Add(-3 * time.Hour).Zone()
+				_, o2 := in[0].Add(3 * time.Hour).Zone()
+				_, o3 := in[0].Add(d).In(iv.wall).Zone()
+				_, o4 := in[0].Add(d + 3*time.Hour).In(iv.wall).Zone()
+				if o1 != off || o2 != off || o3 != off || o4 != off {
+					return iv, "recurrence instance within 3h of a UTC-offset transition of its zone"
+				}
+			}
+		default:
+			return iv, "recurrence outside the bounded family (DTSTART neither UTC nor TZID)"
 		}
-		iv.rec = rr
 	}
 	return iv, ""
 }
@@ -751,6 +775,11 @@ func (iv evInterval) instances() [][2]time.Time {
 	d := iv.E.Sub(iv.S)
 	for k := 0; k < iv.rec.count; k++ {
 		s := iv.S.Add(time.Duration(k) * iv.rec.step)
+		if iv.wall != nil {
+			l := iv.S.In(iv.wall)
+			days := k * int(iv.rec.step/(24*time.Hour))
+			s = time.Date(l.Year(), l.Month(), l.Day()+days, l.Hour(), l.Minute(), l.Second(), 0, iv.wall)
+		}
 		out = append(out, [2]time.Time{s, s.Add(d)})
 	}
 	return out
